@@ -811,7 +811,17 @@ pub fn c14_prog(st: &mut Stats, p: &grammar::Prog, r: &mut Rng) {
             while !p.s.is_char_boundary(cut) {
                 cut -= 1;
             }
-            // only cuts that are not inside a quoted string or comment of the prefix are judged
+            // a cut inside a `%name` token can turn a call into a statement keyword (`%do_it` ->
+            // `%do`), which legitimately consumes the expectation earlier: move the cut before it
+            if let Some(pc) = p.s[..cut].rfind('%') {
+                if pc > lp && p.s[pc + 1..cut].chars().all(|c| c == '_' || c.is_alphanumeric()) {
+                    cut = pc;
+                }
+            }
+            // never split a comment opener
+            if p.s[..cut].ends_with('/') && p.s[cut..].starts_with('*') {
+                cut -= 1;
+            }
             let src = &p.s[..cut];
             st.src(Src::GrammarTrunc);
             st.cases += 1;
